@@ -524,6 +524,20 @@ namespace fsh
             os << "\n";
         }
 
+        // outlets / pits as the graph reports them now, WITHOUT calling basins() again (the base
+        // levels may have been changed since the last basins() call)
+        void call_pits(FG& g)
+        {
+            os << "I seeds";
+            for (auto b : g.impl().base_levels())
+                os << ' ' << b;
+            os << "\nO outlets";
+            put_sizes(os, g.impl().outlets());
+            os << "\nO pits";
+            put_sizes(os, g.impl_ptr()->pits());
+            os << "\n";
+        }
+
         // basin graph built directly on the current (single-direction) graph state
         void call_bgraph(Line& l)
         {
@@ -725,7 +739,7 @@ namespace fsh
         bool dispatch(const std::string& cmd, Line& l)
         {
             static const char* flow_cmds[] = { "set_mask", "set_base", "set_param", "update", "acc",
-                                               "basins", "bgraph", "spl", "kernel", "snapcall", "adi" };
+                                               "basins", "pits", "bgraph", "spl", "kernel", "snapcall", "adi" };
             if (cmd != "graph" && !graph)
             {
                 for (auto fc : flow_cmds)
@@ -749,6 +763,8 @@ namespace fsh
                 call_acc(l, *graph, "");
             else if (cmd == "basins")
                 call_basins(*graph, "");
+            else if (cmd == "pits")
+                call_pits(*graph);
             else if (cmd == "bgraph")
                 call_bgraph(l);
             else if (cmd == "spl")
